@@ -228,7 +228,6 @@ def renderOutcome (role : Role) (o : Outcome) : String :=
 
 open H3.Spec.ReqSeq in
 def renderExpect (role : Role) : Expect → List String
-  | .any => ["?"]
   | .oneOf os => os.map (renderOutcome role)
 
 open H3.Spec.ReqSeq in
